@@ -31,6 +31,12 @@ CLAIMED = {
  "C16": dict(text="Part of the property, Verus on the real deserialize_os_ipc_sender/receiver, IpcSharedMemory::deserialize and OpaqueIpcMessage::to with an ARBITRARY decoded index: no index/unwrap panic (auto-obligations), the endpoint returned is an attachment of this very message, the side tables are restored before the result is looked at. Open known finding: a channel index used twice. bincode's own behaviour on corrupt bytes is outside; release of unclaimed descriptors is OsOpaqueIpcChannel::drop (Kani ledger when present).",
              design="DESIGN.md 3/U7, 4/C16, 5", technique="Verus auto-obligations (bounds, unwrap) + postconditions on extracted real code, arbitrary index",
              note="Trusted: serde/bincode stubs; thread-locals modelled as explicit &mut Tls."),
+ "C07": dict(text="Verus on the real Router::run with ghost logs: every MessageReceived(id, m) the receiver set reports for a route is passed exactly once, in report order, to the handler registered under id (calls == delivered, as an invariant of both loops); the handler lookup cannot fail; a handler is removed exactly on ChannelClosed(id) and no handler outlives its channel. The receiver set's own behaviour (C06), the crossbeam forwarding closures and cross-thread registration (one mutex) are assumed.",
+             design="DESIGN.md 3/U6, 4/C07", technique="Verus loop invariants over ghost delivery/invocation logs on extracted real code",
+             note="Trusted: IpcReceiverSet stub (ids are members, none after ChannelClosed, ids never reused), wake-up/RouterMsg pairing, the handler-call stub router_invoke (D5), HashMap specs of vstd."),
+ "C17": dict(text="Verus on the real Router::run: '!acked' is an invariant of the service loop (no select, no handler call, no registration after the acknowledgement: call-site obligations), every callback has been dropped when the acknowledgement is sent (ghost count at the ack stub == 0), run leaves no callback behind when it stops by shutdown or proxy drop, and both unwraps / the expect are total. Racing shutdown/add_route callers are argued only from 'one mutex, never taken by run'.",
+             design="DESIGN.md 3/U6, 4/C17, 5", technique="Verus invariants + call-site preconditions (ghost 'acked' flag) on extracted real code",
+             note="Trusted: as C07; the proxy is blocked on the acknowledgement channel when the ack is sent; termination of the service loop is not claimed (exec_allows_no_decreases_clause)."),
  "C09": dict(text="Verus, part of the property: on the real OsIpcSender::send every transmission failure that is not a recoverable ENOBUFS is returned as Err (ghost attempt log), a failed send leaves at most one packet on the shared socket, and the retry loop terminates for every error pattern. That the kernel reports EPIPE/ECONNRESET and raises no SIGPIPE is assumed.",
              design="DESIGN.md 3/U2, 4/C09", technique="Verus postconditions over a ghost transmission log"),
 }
